@@ -102,6 +102,13 @@ func NewUp4Gen(w *World, seed int64, peers, maxSess int, wide bool) *Up4Gen {
 		g.flows = append(g.flows, g.mkFlow())
 	}
 
+	if wide {
+		// one filter on the remote prefix alone and one on the protocol alone (the applications table has a prefix, a range and a
+		// ternary field: each of them alone makes the entry one that needs a priority)
+		g.flows[0].Proto, g.flows[0].ProtoN, g.flows[0].Src = "ip", 255, pfcpx.FlowEP{Kind: "net", IP: 0x09000000 | uint32(g.R.Intn(1<<16))<<8, Len: 24, Ports: "none"}
+		g.flows[1].Proto, g.flows[1].ProtoN, g.flows[1].Src = "udp", 17, pfcpx.FlowEP{Kind: "any", Ports: "none"}
+	}
+
 	g.QFIs = []uint8{1, 5, 9, uint8(1 + g.R.Intn(63)), uint8(1 + g.R.Intn(63))}
 	if wide {
 		g.QFIs = append(g.QFIs, 63, 62, 32)
